@@ -40,10 +40,18 @@ def register(R):
       requires=['0 <= shard_index', 'implies(num_shards >= 1, shard_index < num_shards)'],
       raises={'ValueError': 'num_shards < 1'},
       ensures=[
-          # taken from the property: shard i of k is the i-th part of an even split
-          'result._start == part_start(src_start(self), src_end(self), shard_index, num_shards) + offset',
-          'src_end(result) == part_start(src_start(self), src_end(self), shard_index, num_shards)'
+          # the implemented even split (the first `remainder` shards get one element more): a refinement of the property, which
+          # does not say WHICH shards are the larger ones - these two clauses carry the proofs, the next four are the property
+          'impl: result._start == part_start(src_start(self), src_end(self), shard_index, num_shards) + offset',
+          'impl: src_end(result) == part_start(src_start(self), src_end(self), shard_index, num_shards)'
           ' + part_len(src_start(self), src_end(self), shard_index, num_shards)',
+          # property level: the shard lies inside the source, its size is the even share or one more, the first shard starts
+          # where the source starts and the last ends where it ends (contiguity of neighbours: lemmas + bounded_shard)
+          'implies(src_start(self) <= src_end(self), src_start(self) <= result._start - offset and src_end(result) <= src_end(self))',
+          'implies(src_start(self) <= src_end(self), (src_end(self) - src_start(self)) // num_shards <= src_end(result) - (result._start - offset)'
+          ' and src_end(result) - (result._start - offset) <= (src_end(self) - src_start(self)) // num_shards + 1)',
+          'implies(shard_index == 0, result._start - offset == src_start(self))',
+          'implies(shard_index == num_shards - 1, src_end(result) == src_end(self))',
           'result.data is self.data',
           'result.ignore_error == self.ignore_error',
           'result._shard_state.shard_index == shard_index and result._shard_state.num_shards == num_shards'
